@@ -134,6 +134,7 @@ var redirectTable = map[string][2]string{
 	repoMod + "/jrpc2.MustURL":                            {repoMod + "/jrpc2", "zzMustURL"},
 	repoMod + "/shovel/config.Integrations":               {repoMod + "/shovel/config", "zzDBIntegrations"},
 	repoMod + "/shovel/config.Sources":                    {repoMod + "/shovel/config", "zzDBSources"},
+	"github.com/jackc/pgx/v5.CollectRows":                 {repoMod + "/shovel/config", "zzCollectColumns"},
 	"github.com/kr/session.Get":                           {repoMod + "/shovel/web", "zzSessionGet"},
 	"github.com/kr/session.Set":                           {repoMod + "/shovel/web", "zzSessionSet"},
 	"net/http.Redirect":                                   {repoMod + "/shovel/web", "zzRedirect"},
